@@ -212,6 +212,7 @@ pub fn run_reader<T: EbmlSpecification<T> + EbmlTag<T> + Clone>(
         if ncalls >= max_calls { break; }
         let call = match script { Some(s) => s[ncalls], None => next_call };
         ncalls += 1;
+        crate::watchdog::call_begins();
         crate::alloc::reset_peak();
         let before = crate::alloc::current();
         // the peak is taken immediately after the call returns: converting the result to JSON allocates too
@@ -221,6 +222,7 @@ pub fn run_reader<T: EbmlSpecification<T> + EbmlTag<T> + Clone>(
             Call::Recover => Raw::R(catch_unwind(AssertUnwindSafe(|| it.try_recover()))),
         };
         let peak_now = crate::alloc::peak().saturating_sub(before);
+        crate::watchdog::call_ends();
         let mut ev = match raw {
             Raw::N(r) => {
                 match r {
